@@ -246,7 +246,7 @@ def run(tier):
 
     def ask(qname, formula, text):
         nonlocal solver_s
-        s = z3.Solver()
+        s = z3.SolverFor('QF_BV')
         s.add(*ex.assumptions)
         s.add(pre)
         s.add(formula)
@@ -286,6 +286,8 @@ def run(tier):
         solver_s += lint['solver_s']
         exec_s += lint['exec_s']
 
+    if os.environ.get('VERIF_DEBUG'):
+        log('  lint clauses done at %.0fs' % (time.time() - t0))
     # native validation of the encoding on random statement trees
     rng = random.Random(seed() * 23 + 11)
 
@@ -300,14 +302,16 @@ def run(tier):
     lines += ['L B(L,D,L) I(G;I(I(G)))', 'I(L) I(B(L);D) B(I(G;I(G;B(D,L))))', 'I(G;I(G;I(G;G)))', 'B(B(L),L) I(B(D,L))']
     lines = [l for l in lines if l.strip()]
     got = native(lines)
-    s2 = z3.Solver()
+    s2 = z3.SolverFor('QF_BV')
     s2.add(*ex.assumptions)
     bad = []
     t_val, n_val = time.time(), 0
     for line, r_n in zip(lines, got):
-        if n_val >= 40 and time.time() - t_val > (120 if tier == 'quick' else 300):
+        if n_val >= 10 and time.time() - t_val > (120 if tier == 'quick' else 300):
             break           # big encodings: every comparison is a solver call; the sample is time-boxed
         n_val += 1
+        if os.environ.get('VERIF_DEBUG'):
+            log('  validation %d at %.0fs' % (n_val, time.time() - t0))
         cons = []
         try:
             parts = line.split(' ')
@@ -453,7 +457,7 @@ def lint_clause(T, dump, defs, depth, width, ask_generic):
             ('l1800-count', zand(g, z3.Extract(15, 0, nl) != expected),
              'exactly one L1800 per braced if-branch whose first statement is loop'),
             ('l1800-only', zand(g, others), 'statements raise no lint other than L1800')]:
-        s = z3.Solver()
+        s = z3.SolverFor('QF_BV')
         s.add(*ex.assumptions)
         s.add(formula)
         t = time.time()
